@@ -94,6 +94,12 @@ CHECKS["C09"]["text"] += DOC_TXT + " Here the traces are those of the violating 
 CHECKS["C08"]["text"] += (" The whole-listener automaton of spec/DslDoc.tla (see C03) must explain the recorded callback traces of every token-mutated document and byte-mutated fixture as well "
                           "(contexts with missing parts, early returns); PanicOK ties a recorded panic to the callback at which the automaton says the Go code dereferences nil.")
 
+STEPS_TXT = (" Impl binding at decision level: spec/MergeSteps.tla conjoins every action of the Impl state machine with the event the verif hook VerifMergeTrace logged "
+             "at the corresponding decision of the real merger (file ok|syntax, type dup|ext|new|notmodule, cond, extfile, exttype missing|adopt|merge, extrel dup|add): "
+             "StepsAccepted, StepsNotStuck, StepsResultOK over one real merge of every file set (quick: 4,000 + the random sets). A rejected trace is reported as DRIFT.")
+CHECKS["C07"]["text"] += STEPS_TXT
+CHECKS["C12"]["text"] += STEPS_TXT
+
 NOT_YET = "check not built yet in this round (see DESIGN.md section 9 for the order of work)"
 
 
